@@ -63,10 +63,11 @@ Lemma bridge G : forall ms h os h', Heads.run_steps G (fun l => l) (map rstep ms
   rows_after (mk_steps G ms h) (Heads.rows h) = Heads.rows h' /\ length (mk_steps G ms h) = length ms.
 Proof.
   induction ms as [|m ms IH]; intros h os h'; simpl.
-  - intros [= <- <-]. auto.
+  - intros E; inversion E; subst; auto.
   - unfold rstep at 1. cbn [Heads.update_to_step].
+    change (map (fun m0 : mstep => Heads.RevStep (ms_rev m0) (ms_up m0)) ms) with (map rstep ms).
     destruct (Heads.rev_step G (fun l => l) (ms_rev m) (ms_up m) h) as [[h1 st]|] eqn:E; [|discriminate].
-    destruct (Heads.run_steps G (fun l => l) (map rstep ms) h1) as [o f] eqn:E2. intros [= <- <-].
+    destruct (Heads.run_steps G (fun l => l) (map rstep ms) h1) as [o f] eqn:E2. intros E0; inversion E0; subst.
     destruct (IH _ _ _ E2) as [I1 I2]. simpl. split; [|lia].
     unfold rows_after in *. simpl. unfold ver_rows at 2. simpl.
     change (fold_left (fun l v => apply_vop v l) (map conv st) (Heads.rows h)) with (replay st (Heads.rows h)).
@@ -74,9 +75,9 @@ Proof.
 Qed.
 
 Lemma firstn_mk_steps G : forall c ms h, firstn c (mk_steps G ms h) = mk_steps G (firstn c ms) h.
-Proof. induction c as [|c IH]; intros [|m ms] h; simpl; auto.
-  destruct (Heads.update_to_step _ _ _ h) as [[h1 st]|]; simpl; [rewrite IH; reflexivity|].
-  destruct c; reflexivity. Qed.
+Proof. induction c as [|c IH]; intros [|m ms] h; cbn [firstn mk_steps]; auto.
+  destruct (Heads.update_to_step G (fun l => l) (Heads.RevStep (ms_rev m) (ms_up m)) h) as [[h1 st]|]; cbn [firstn];
+    [rewrite IH; reflexivity|]. destruct c; reflexivity. Qed.
 
 (* the spec's own notions vs those of the C03 development *)
 Lemma gvalid_valid G : forall ms A, gvalid G A ms -> HeadsProof.valid_steps G A (map rstep ms).
@@ -135,7 +136,7 @@ Section Compose.
     Heads.run_steps G (fun l => l) (map rstep (firstn c ms)) (Heads.start (vrows (g_db0 gi))) = (os, Some h') /\
     HeadsProof.Inv G (gapplied (firstn c ms) A0) h'.
   Proof.
-    pose proof (HeadsProof.pre_InvR _ _ _ _ _ Hpre Hcl) as IR.
+    pose proof (HeadsProof.pre_InvR G (vrows (g_db0 gi)) false [] A0 Hpre Hcl) as IR.
     pose proof (HeadsProof.start_Inv _ _ _ IR) as I0.
     destruct (HeadsProof.run_steps_thm G (fun l => l) W (fun l => Permutation_refl l) (map rstep (firstn c ms)) A0 _ I0
                 (gvalid_valid G _ _ (gvalid_firstn G c ms A0 Hval))) as (os & h' & E & _ & I' & _).
@@ -169,7 +170,7 @@ Section Compose.
       apply up_grows; auto. apply forallb_firstn. apply forallb_skipn. auto.
     - assert (Hup : ms_up m = false). { rewrite forallb_forall in Hall. apply negb_true_iff. apply Hall. eapply nth_error_In; eauto. }
       rewrite Hup in V. destruct V as (V & _). rewrite Esplit in V.
-      eapply down_shrinks; eauto. apply forallb_firstn. apply forallb_skipn. auto.
+      apply (down_shrinks _ A' _ (forallb_firstn _ _ _ (forallb_skipn _ _ _ Hall)) V).
   Qed.
 End Compose.
 
@@ -179,7 +180,7 @@ Proof.
   intros A0 Hpre Hcl Hwf Hac Hnd Hval. split.
   - rewrite (version_rows_thm _ Hc).
     destruct (rows_prefix gi A0 Hpre Hcl Hwf Hac Hnd Hval (committed_count (to_input gi))) as (h' & I' & E).
-    rewrite E. apply HeadsProof.Inv_rows_ok; auto. apply W; auto.
+    change (i_db0 (to_input gi)) with (g_db0 gi). rewrite E. apply HeadsProof.Inv_rows_ok; auto. apply W; auto.
   - intros k m Hf Hn. apply (named gi A0 Hval k m Hf Hn).
 Qed.
 
@@ -207,3 +208,37 @@ Proof.
     + apply negb_true_iff in H3. apply memN_nIn in H3. exact H3.
     + apply memN_In. exact H4.
 Qed.
+
+(* ------------------------------------------------------------------ the named corollaries *)
+Section Named.
+  Variable gi : ginput.
+  Variable A0 : list N.
+  Hypothesis Hc : consistent (to_input gi) = true.
+  Hypothesis Hpre : gpre gi = true.
+  Hypothesis Hcl : Spec.C03.closure (g_graph gi) (vrows (g_db0 gi)) = Some A0.
+  Hypothesis Hwf : wf_refs (g_graph gi).
+  Hypothesis Hac : ~ cyclic (all_down (g_graph gi)).
+  Hypothesis Hnd : Spec.C03.ndeps_okb (g_graph gi) = true.
+  Hypothesis Hval : gvalid (g_graph gi) A0 (g_msteps gi).
+
+  Lemma rows_are_heads_thm :
+    Spec.C03.rows_ok (g_graph gi) (gapplied (firstn (committed_count (to_input gi)) (g_msteps gi)) A0)
+                     (vrows (o_db (txn_run_g gi))).
+  Proof. destruct (C04g_main_thm gi Hc) as [_ H]. apply (H A0); auto. Qed.
+
+  Lemma failed_upgrade_thm k m : fail_index (to_input gi) = Some k -> nth_error (g_msteps gi) k = Some m ->
+    forallb ms_up (g_msteps gi) = true ->
+    ~ In (ms_rev m) (vrows (o_db (txn_run_g gi))) /\ ~ implied (g_graph gi) (vrows (o_db (txn_run_g gi))) (ms_rev m).
+  Proof. intros Hf Hn Hall. destruct (C04g_main_thm gi Hc) as [_ H].
+    destruct (H A0 Hpre Hcl Hwf Hac Hnd Hval) as [(_ & R2 & _ & R4) N]. destruct (N k m Hf Hn) as [N1 _]. specialize (N1 Hall).
+    split.
+    - intros Hin. apply R2 in Hin. destruct Hin as [Hin _]. auto.
+    - intros Himp. apply N1. apply R4. exact Himp. Qed.
+
+  Lemma failed_downgrade_thm k m : fail_index (to_input gi) = Some k -> nth_error (g_msteps gi) k = Some m ->
+    forallb (fun x => negb (ms_up x)) (g_msteps gi) = true ->
+    implied (g_graph gi) (vrows (o_db (txn_run_g gi))) (ms_rev m).
+  Proof. intros Hf Hn Hall. destruct (C04g_main_thm gi Hc) as [_ H].
+    destruct (H A0 Hpre Hcl Hwf Hac Hnd Hval) as [(_ & _ & _ & R4) N]. destruct (N k m Hf Hn) as [_ N2].
+    apply R4. apply N2. exact Hall. Qed.
+End Named.
